@@ -14,7 +14,7 @@ from vlib import log
 
 ASSUME = ["the oracle is trivial (the worker recovered a panic / the process died abnormally / a generous time budget was exceeded); TLA+ contributes the systematic input spaces (Gen_Matrix, Gen_Mut, Gen_Prog) and the totality of the design model, the verdict itself is an exploration",
           "a run that ends through os.Exit with a diagnosed failure (exit 17, 255) or a parse error is a permitted outcome",
-          "time budget per input: 20 s for inputs of at most a few hundred tokens (the unchanged tree needs milliseconds); scale series: time(4n)/time(n) must stay below 8 (quadratic would be 16)"]
+          "time budget per input: 20 s for inputs of at most a few hundred tokens (the unchanged tree needs milliseconds); scale series: 300 s per point, and time(4n)/time(n) (minimum of up to 3 runs, only judged when the larger point needs more than 2 s) must stay below 8 (quadratic would be 16)"]
 
 TOK = {"comma": ",", "colon": ":", "lbracket": "[", "rbracket": "]", "plus": "+", "minus": "-", "star": "*", "slash": "/", "lparen": "(", "rparen": ")",
        "quote": '"', "squote": "'", "bignum": "99999999999999999999999999", "hexjunk": "0xZZ", "ident": "foo_bar", "reg": "EAX", "opcode": "MOV",
@@ -145,9 +145,15 @@ def run(ctx):
     openf = _F().open
     known_series = {"equ_doubling": "D_EquReevalExponential"}
     known_hit = {}
-    def timed(src):
-        r = ctx.run_jobs([{"id": 1, "src": src, "notrace": True, "maxout": 1}], sequential=True, per_job_timeout=90.0)[1][-1]
-        return r.get("us", 0) / 1e6, r.get("status")
+    def timed(src, reps=1):
+        best, st = None, "ok"
+        for _ in range(reps):
+            r = ctx.run_jobs([{"id": 1, "src": src, "notrace": True, "maxout": 1}], sequential=True, per_job_timeout=300.0)[1][-1]
+            t, st = r.get("us", 0) / 1e6, r.get("status")
+            best = t if best is None else min(best, t)
+            if st not in ("ok", "parse") or t < 0.5:
+                break            # fast enough not to matter / abnormal: no need to repeat
+        return best, st
     sizes = [250, 1000, 4000] if quick else [500, 2000, 8000, 32000]
     for name, mk in (("statements", lambda n: "\tMOV\tAX, 1\n" * n),
                      ("nesting", lambda n: "\tDD\t" + "(" * n + "1" + ")" * n + "\n"),
@@ -162,7 +168,7 @@ def run(ctx):
                      ("horner_div0", lambda n: "\tDD\t" + "(" * (n // 50) + "1/0" + ")*2+1" * (n // 50) + "\n")):
         ts = []
         for n in sizes:
-            t, st = timed(mk(n))
+            t, st = timed(mk(n), reps=3)      # minimum of up to 3 runs: robust against a loaded machine
             ts.append((n, round(t, 3), st))
             if st not in ("ok", "parse") and not (st == "exit" and ts[-1][1] < 60) and known_series.get(name) in openf:
                 known_hit[known_series[name]] = known_hit.get(known_series[name], 0) + 1
@@ -175,7 +181,7 @@ def run(ctx):
                 if t1 > 0.05 and t2 / t1 > 8.0 * (n2 / n1) / 4.0:
                     known_hit[known_series[name]] = known_hit.get(known_series[name], 0) + 1
                 continue
-            if t1 > 0.05 and t2 / t1 > 8.0 * (n2 / n1) / 4.0:
+            if t1 > 0.05 and t2 > 2.0 and t2 / t1 > 8.0 * (n2 / n1) / 4.0:
                 viol.append({"id": 0, "tags": ["C13"], "why": "time grows faster than quadratic-ish bound in series %s: n=%d %.2fs -> n=%d %.2fs" % (name, n1, t1, n2, t2),
                              "at": "scale", "i": 0, "obs": [], "bits": 0, "kind": "scale", "src": name})
 
